@@ -15,7 +15,9 @@ def check(run):
     from contracts import C06_fermi
 
     C06_fermi.check(run)
-    run.notes.append("bosonic enumeration (partitions successor / rank step): not under contract, bounded stand-in only")
+    from contracts import C06_enum
+
+    C06_enum.check(run)
     try:
         from vf import lean
 
@@ -31,6 +33,9 @@ def check(run):
                "(vf/lift.py rules R1-R8, applied mechanically to the real source on every run): one generic element, shapes and "
                "broadcasting dropped, every array temporary must fit int64 and every stored value the dtype of its array")
     run.assume("spec functions S and RK are defined by their unfold equations (recursive definitions); C by the Lean lemmas named in trusted_base")
+    run.assume("bosonic enumeration: partitions(boxes, particles) is verified for the default out=None (mechanical specialisation); "
+               "nb_get_fock_space_basis hands partitions a slice view of its result array as `out` - that the rows written through the "
+               "view are rows current_row.. of the result is numpy's slicing semantics (assumed); sector offsets are proved")
     run.assume("fermionic enumeration: successor step (rank + 1, sector change), rank of the first vector = 0 and the dimension sums are "
                "proved; the induction over get_fock_space_basis (occupation <-> first-quantised conversion, one call per row) is a stated "
                "argument over these contracts and is evaluated by the bounded stand-in")
